@@ -69,6 +69,7 @@ package vm
 //@ func run   trusted
 //@   modifies all
 //@   ensures contract.Gas <= old(contract.Gas)
+//@   ensures evm.interpreter == old(evm.interpreter) && evm.interpreter.readOnly == old(evm.interpreter.readOnly) && evm.depth == old(evm.depth)
 
 //@ func (*EVM).AddEvent   trusted
 //@   modifies nothing
@@ -80,6 +81,7 @@ package vm
 //@   ensures old(evm.depth) > int(params.CallCreateDepth) && !(old(evm.vmConfig.NoRecursion) && old(evm.depth) > 0) ==> err == ErrDepth && leftOverGas == gas
 //@   assert @call run#0: evm.depth <= int(params.CallCreateDepth)
 //@   ensures err != nil && err != ErrDepth && err != ErrInsufficientBalance && err != ErrContractCodeLoadFail ==> gh("lastRevert", evm.am) == snapshot
+//@   ensures evm.interpreter == old(evm.interpreter) && evm.interpreter.readOnly == old(evm.interpreter.readOnly)
 
 //@ func (*EVM).StaticCall
 //@   props C16
@@ -88,6 +90,7 @@ package vm
 //@   ensures old(evm.depth) > int(params.CallCreateDepth) && !(old(evm.vmConfig.NoRecursion) && old(evm.depth) > 0) ==> err == ErrDepth && leftOverGas == gas
 //@   assert @call run#0: evm.depth <= int(params.CallCreateDepth) && evm.interpreter.readOnly
 //@   ensures err != nil && err != ErrDepth && err != ErrContractCodeLoadFail ==> gh("lastRevert", evm.am) == snapshot
+//@   ensures evm.interpreter == old(evm.interpreter) && evm.interpreter.readOnly == old(evm.interpreter.readOnly)
 
 //@ func (*EVM).CallCode
 //@   props C16
@@ -96,6 +99,7 @@ package vm
 //@   ensures old(evm.depth) > int(params.CallCreateDepth) && !(old(evm.vmConfig.NoRecursion) && old(evm.depth) > 0) ==> err == ErrDepth && leftOverGas == gas
 //@   assert @call run#0: evm.depth <= int(params.CallCreateDepth)
 //@   ensures err != nil && err != ErrDepth && err != ErrInsufficientBalance && err != ErrContractCodeLoadFail ==> gh("lastRevert", evm.am) == snapshot
+//@   ensures evm.interpreter == old(evm.interpreter) && evm.interpreter.readOnly == old(evm.interpreter.readOnly)
 
 //@ func (*EVM).DelegateCall
 //@   props C16
